@@ -39,4 +39,12 @@ def colsDropLast (m : Mat) : Mat := { ncols := m.ncols - 1, rows := m.rows.map f
 /-- `M.T[1:]`: all columns but the first -/
 def colsFrom1 (m : Mat) : Mat := { ncols := m.ncols - 1, rows := m.rows.map fun r => r.drop 1 }
 
+/-- an elementwise operation of two 1-D arrays of the same length -/
+def vzip (f : Rat → Rat → Rat) (a b : List Rat) : Option (List Rat) :=
+  if a.length = b.length then some (List.zipWith f a b) else none
+
+/-- `np.mean(v)` of a non-empty vector (the mean of an empty array is NaN: `none`) -/
+def vmean (v : List Rat) : Option Rat :=
+  if v.length = 0 then none else some (v.foldl (· + ·) 0 / (v.length : Rat))
+
 end TFV.NpQ
